@@ -6,7 +6,7 @@
 (*                                                                         *)
 (* A template (TEMPLATE file, prepared by the harness: tree, matches of    *)
 (* the stanza queries, merged order) fixes the queries; TLC chooses the    *)
-(* bodies: every sequence of at most MaxLen statements from a pool of      *)
+(* bodies: every sequence of at most MaxLen1 (stanza 1) / MaxLen2 (stanza 2) statements from a pool of      *)
 (* statements (graph nodes, edges, attributes with equal and conflicting   *)
 (* values, scoped definitions and reads through the capture, an `if` and a *)
 (* `for`), for stanza 1 and stanza 2.  For each program the strict and the *)
@@ -23,7 +23,7 @@
 (***************************************************************************)
 EXTENDS TSGExec, TSGStatic, Json, IOUtils
 
-CONSTANTS MaxLen, MaxIsoNodes
+CONSTANTS MaxLen1, MaxLen2, MaxIsoNodes
 
 Template == JsonDeserialize(IOEnv.TEMPLATE)     \* a prepared case with two stanzas (queries fixed, bodies ignored)
 Trees == JsonDeserialize(IOEnv.TREES)
@@ -62,7 +62,7 @@ SeqsUpTo(S, n) == IF n = 0 THEN {<<>>} ELSE LET T == SeqsUpTo(S, n - 1) IN T \cu
 UsesN(i) == i \in {3, 4, 5, 8}
 WellFormed(b) == \A j \in 1..Len(b) : UsesN(b[j]) => \E m \in 1..(j - 1) : b[m] = 1
 NoRedef(b) == Cardinality({j \in 1..Len(b) : b[j] = 1}) <= 1
-Bodies == {b \in SeqsUpTo(1..Len(Pool), MaxLen) : WellFormed(b) /\ NoRedef(b)}
+Bodies(n) == {b \in SeqsUpTo(1..Len(Pool), n) : WellFormed(b) /\ NoRedef(b)}
 
 \* every capture of the template must be used (checker): a harmless `let` is appended
 UseCap == [k |-> "let", var |-> V("u"), value |-> Cap, loc |-> L0]
@@ -87,7 +87,7 @@ VARIABLES b1, b2, phase, fs, fl, flw      \* bodies; finals: strict, lazy, lazy 
 vars == <<b1, b2, phase, fs, fl, flw>>
 
 None == [status |-> "none"]
-Init == b1 \in Bodies /\ b2 \in Bodies /\ phase = "strict" /\ fs = None /\ fl = None /\ flw = None
+Init == b1 \in Bodies(MaxLen1) /\ b2 \in Bodies(MaxLen2) /\ phase = "strict" /\ fs = None /\ fl = None /\ flw = None
 RunStrict == phase = "strict" /\ fs' = Final(CaseOf(b1, b2, "strict", FALSE)) /\ phase' = "lazy" /\ UNCHANGED <<b1, b2, fl, flw>>
 RunLazy == phase = "lazy" /\ fl' = Final(CaseOf(b1, b2, "lazy", FALSE)) /\ phase' = "swapped" /\ UNCHANGED <<b1, b2, fs, flw>>
 RunSwapped == phase = "swapped" /\ flw' = Final(CaseOf(b1, b2, "lazy", TRUE)) /\ phase' = "done" /\ UNCHANGED <<b1, b2, fs, fl>>
